@@ -212,7 +212,10 @@ def case(ctx):
     for k in positions:
         d = _copy(root, ctx)
         en = errno.EIO if k % 2 else errno.EACCES
-        _F.begin(fail_at=k, errno_=en, only_in=("/transform.py",))
+        # every fourth fault is the user's interrupt arriving while that file-system operation is under way (the
+        # operation does not complete): the rollback promise is the same
+        interrupt = rng.random() < 0.25
+        _F.begin(fail_at=k, errno_=en, only_in=("/transform.py",), exc=KeyboardInterrupt if interrupt else None)
         raised = None
         try:
             try:
@@ -221,6 +224,12 @@ def case(ctx):
                 _F.end()
         except Exception as e:
             raised = e
+        except KeyboardInterrupt as e:
+            if _F.fired is None:
+                raise
+            raised = e
+        if interrupt:
+            ctx.count("fault_runs_interrupt")
         ctx.count("fault_runs")
         name = calls[k - 1][0] if k - 1 < len(calls) else "?"
         phase = "deletion" if name == "delete_any" and all(c[0] == "delete_any" for c in calls[k - 1:]) else "rename/insert"
